@@ -157,6 +157,8 @@ func Subset(level int) []*tv.Package {
 	genFuncs(b, level)
 	genNamed(b, level)
 	genPrims(b, level)
+	genComments(b, level)
+	genPtrPtr(b, level)
 	if level > 0 {
 		genCompositions(b)
 	}
@@ -371,6 +373,17 @@ func genData(b *builder, level int) {
 	b.add("data/map/struct-values", "func FN(k uint64, x uint64) uint64 {\n\tm := make(map[uint64]Pt)\n\tm[k] = Pt{X: x}\n\treturn m[k].X + m[k+1].Y\n}")
 }
 
+// genPtrPtr: cells that hold pointers to structs (pointer-to-pointer cursors).
+func genPtrPtr(b *builder, level int) {
+	b.add("data/ptrptr/load-store", "func FN(pp **Pt, n *Pt) uint64 {\n\told := *pp\n\t*pp = n\n\treturn old.X + (*pp).Y\n}")
+	b.add("data/ptrptr/swap", "func FN(a **Pt, b **Pt) {\n\tt := *a\n\t*a = *b\n\t*b = t\n}")
+	b.add("data/ptrptr/new-cell", "func FN(x uint64) uint64 {\n\tcell := new(*Pt)\n\t*cell = &Pt{X: x, Y: 2}\n\tp := *cell\n\tp.Y = p.Y + 1\n\treturn (*cell).X + (*cell).Y\n}")
+	b.add("data/ptrptr/field-through-cell", "func FN(pp **Pt, v uint64) uint64 {\n\t(*pp).X = v\n\tq := &(*pp).Y\n\t*q = v + 1\n\treturn (*pp).X + (*pp).Y\n}")
+	b.add("data/ptrptr/sorted-insert", "type FNnode struct {\n\tval  uint64\n\tnext *FNnode\n}\n\nfunc FNinsert(head **FNnode, n *FNnode) {\n\tvar pp **FNnode = head\n\tfor *pp != nil && (*pp).val < n.val {\n\t\tpp = &(*pp).next\n\t}\n\tn.next = *pp\n\t*pp = n\n}\n\nfunc FN(a uint64, b uint64, c uint64) uint64 {\n\thead := new(*FNnode)\n\tFNinsert(head, &FNnode{val: a})\n\tFNinsert(head, &FNnode{val: b})\n\tFNinsert(head, &FNnode{val: c})\n\tfirst := *head\n\treturn first.val*100 + first.next.val*10 + first.next.next.val\n}", "small:a,b,c")
+	b.add("data/ptrptr/slice-of-ptrs", "func FN(x uint64) uint64 {\n\ta := make([]*Pt, 2)\n\ta[0] = &Pt{X: x}\n\ta[1] = a[0]\n\ta[1].Y = 5\n\treturn a[0].X + a[0].Y\n}")
+	b.add("data/ptrptr/map-of-ptrs", "func FN(k uint64, x uint64) uint64 {\n\tm := make(map[uint64]*Pt)\n\tm[k] = &Pt{X: x}\n\tp := m[k]\n\tp.Y = 7\n\treturn m[k].X + m[k].Y\n}")
+}
+
 func genNamed(b *builder, level int) {
 	b.add("named/map-make-read", "func FN(k uint64) bool {\n\ts := make(Set)\n\treturn s[k]\n}")
 	b.add("named/map-make-commaok", "func FN(k uint64) bool {\n\ts := make(Set)\n\tv, ok := s[k]\n\treturn v || ok\n}")
@@ -405,6 +418,22 @@ func genFuncs(b *builder, level int) {
 	b.add("func/method-on-var", "func (p *Pt) FNset(v uint64) {\n\tp.Y = v\n}\n\nfunc FN(v uint64) uint64 {\n\tp := new(Pt)\n\tp.FNset(v)\n\treturn p.Y\n}")
 	b.add("func/unit-function", "func FNeffect(p *uint64) {\n\t*p = 3\n}\n\nfunc FN(p *uint64) uint64 {\n\tFNeffect(p)\n\treturn *p\n}")
 	b.add("func/first-class", "func FNapply(f func(uint64) uint64, x uint64) uint64 {\n\treturn f(f(x))\n}\n\nfunc FNinc(x uint64) uint64 {\n\treturn x + 1\n}\n\nfunc FN(x uint64) uint64 {\n\treturn FNapply(FNinc, x)\n}")
+}
+
+// genComments: doc comments whose lines look like Coq sentences, and string literals made of
+// parentheses and comment delimiters in positions where the printer decides about grouping.
+func genComments(b *builder, level int) {
+	for i, ln := range []string{"Definition of terms: none.", "Definition of terms: some.", "End code.", "Section code.", "Proof. Qed.", "Notation x := y.", "Definition FN: val := #().", "From Goose Require foo."} {
+		b.add(fmt.Sprintf("doc/coq-looking-line/%d", i), "// FN has a doc comment with a continuation line:\n// "+ln+"\n// and one more line.\nfunc FN(x uint64) uint64 {\n\treturn x + "+fmt.Sprint(i)+"\n}")
+	}
+	b.add("doc/same-text-twice/a", "// FN shares its whole comment with another function.\n// Definition shared: yes\nfunc FN(x uint64) uint64 {\n\treturn x + 1\n}")
+	b.add("doc/same-text-twice/b", "// FN shares its whole comment with another function.\n// Definition shared: yes\nfunc FN(x uint64) uint64 {\n\treturn x + 2\n}")
+	b.add("doc/struct-and-const", "// FNcfg is documented.\n// Definition FNcfg := wrong.\ntype FNcfg struct {\n\tN uint64\n}\n\n// FNk is documented too.\n// Definition FNk := wrong.\nconst FNk uint64 = 3\n\nfunc FN(c FNcfg) uint64 {\n\treturn c.N + FNk\n}")
+	b.add("strlit/parens-in-loop-body", "func FN(a []uint64) string {\n\tvar out string = \"\"\n\tfor _, t := range a {\n\t\tif t == 0 {\n\t\t\tout = out + \"(\"\n\t\t}\n\t\tif t == 1 {\n\t\t\tout = out + \")\"\n\t\t}\n\t}\n\treturn out\n}")
+	b.add("strlit/parens-in-for-body", "func FN(n uint64) string {\n\tvar out string = \"\"\n\tfor i := uint64(0); i < n; i++ {\n\t\tif i == 0 {\n\t\t\tout = out + \"(\"\n\t\t}\n\t\tout = out + \"x\"\n\t\tif i == 1 {\n\t\t\tout = out + \")\"\n\t\t}\n\t}\n\treturn out\n}", "small:n")
+	b.add("strlit/parens-in-if-branches", "func FN(x uint64) string {\n\tvar out string = \"(\"\n\tif x > 1 {\n\t\tout = out + \"(\"\n\t\tout = out + \")\"\n\t} else {\n\t\tout = out + \")\"\n\t}\n\treturn out + \")\"\n}")
+	b.add("strlit/comment-delimiters", "func FN(s string) string {\n\tt := s + \"(*\"\n\tu := t + \"*)\"\n\treturn u + \"(* x *)\"\n}")
+	b.add("strlit/closure-body-parens", "func FN(x uint64) string {\n\tf := func(y uint64) string {\n\t\tif y > x {\n\t\t\treturn \"(\"\n\t\t}\n\t\treturn \")\"\n\t}\n\treturn f(1) + f(3)\n}")
 }
 
 func genPrims(b *builder, level int) {
